@@ -119,7 +119,10 @@ int wrapped_main(int argc, char *argv[])
 
 	case 'h':
 	  if (!help(stdout, progname))
-	    return 1;
+	    {
+	      perror("stdout");
+	      return 1;
+	    }
 	  return 0;
 
 	case 'l':
@@ -131,7 +134,10 @@ int wrapped_main(int argc, char *argv[])
 	  if (0 == strcmp(optarg, "help"))
 	    {
 	      if (!print_dialects(stdout, default_dialect_name))
-		return 1;
+		{
+		  perror("stdout");
+		  return 1;
+		}
 	    }
 	  else if (!set_dialect(optarg, &dialect))
 	    {
